@@ -417,9 +417,25 @@ def r11_8(ctx):
                         bad.append(f"{U(v)} (printed form of an operand)")
             ctx.check(f"{fi.qual}: name of {cls} `{U(name)[:50]}`", not bad, "identifier characters and C spellings only", "; ".join(bad) or "ok", f"{fi.path.relative_to(idx.repo)}:{n.lineno}", nontrivial=bool(bad) or any(isinstance(p, ast.FormattedValue) for p in name.values))
     ctx.need(n_sites >= 6, f"only {n_sites} templated node names found")
+    # type names embedded in node names (`cast_st32`, `ite_cast_ut8`, `ret_val_ut32`): the printed form of an integer type is
+    # identifier characters only, whatever flags the type carries
+    fs = idx.func("ValueType.__str__")
+    for signed in (True, False):
+        for groups in (("PURE",), ("PURE", "CONST"), ("PURE", "BOOL"), ("PURE", "HYBRID_LVAR"), ("PURE", "CONST", "BOOL"), ()):
+            outs = Interp(idx).explore(lambda i: i.call_function(fs, [], self_obj=mk_vt("t", signed, 32, groups)))
+            got = [to_text(o.value) if o.kind != "raise" else "RAISE" for o in outs]
+            ok = len(got) == 1 and re.fullmatch(r"[A-Za-z0-9_]+", got[0] or "") is not None
+            ctx.check(f"printed form of an integer type [{'signed' if signed else 'unsigned'}, flags {'|'.join(groups) or 'none'}]", ok, "identifier characters only (it is embedded in node names)", str(got), fn_where(idx, fs))
     # the C spelling of a register is an identifier
     fp = idx.func("Register.pure_var")
     for nm, exp in (("R31:30", "R31_30"), ("Rs", "Rs"), ("P3:0_new", "P3_0_new")):
         outs = Interp(idx).explore(lambda i, nm=nm: i.call_function(fp, [], self_obj=AObj("Register", {"name": nm, "isa_name": nm}, label="reg")))
         got = [to_text(o.value) if o.kind != "raise" else "RAISE" for o in outs]
         ctx.check(f"Register.pure_var[{nm}]", got == [exp], exp, str(got), fn_where(idx, fp))
+
+
+@rule("R11.9", "C11", "no declaration that live code still uses is removed: operands are taken out of the holder only when they are literals or reference counted", min_instances=4)
+def r11_9(ctx):
+    from .c09 import r09_3
+
+    r09_3(ctx)
